@@ -146,7 +146,17 @@ func genSchema(r *rand.Rand) *gSchema {
 		}
 		return t
 	}
-	genArgs := func() []gArg {
+	argsByName := map[int][]gArg{}
+	var genArgs0 func() []gArg
+	genArgsFor := func(name int) []gArg {
+		if a, ok := argsByName[name]; ok && chance(r, 0.9) {
+			return a
+		}
+		a := genArgs0()
+		argsByName[name] = a
+		return a
+	}
+	genArgs0 = func() []gArg {
 		if !chance(r, 0.3) {
 			return nil
 		}
@@ -166,7 +176,7 @@ func genSchema(r *rand.Rand) *gSchema {
 	if iface != nil {
 		n := 1 + r.Intn(2)
 		for _, f := range r.Perm(4)[:n] {
-			iface.fields = append(iface.fields, gField{name: f + 1, ty: genTy(), args: genArgs()})
+			iface.fields = append(iface.fields, gField{name: f + 1, ty: genTy(), args: genArgsFor(f + 1)})
 		}
 	}
 	for _, id := range objs {
@@ -185,7 +195,7 @@ func genSchema(r *rand.Rand) *gSchema {
 				break
 			}
 			if !used[f+1] {
-				t.fields = append(t.fields, gField{name: f + 1, ty: genTy(), args: genArgs()})
+				t.fields = append(t.fields, gField{name: f + 1, ty: genTy(), args: genArgsFor(f + 1)})
 			}
 		}
 		s.add(t)
@@ -199,7 +209,7 @@ func genSchema(r *rand.Rand) *gSchema {
 	q := &gType{id: 1, kind: "obj"}
 	n := 3 + r.Intn(3)
 	for _, f := range r.Perm(8)[:n] {
-		q.fields = append(q.fields, gField{name: f + 1, ty: genTy(), args: genArgs()})
+		q.fields = append(q.fields, gField{name: f + 1, ty: genTy(), args: genArgsFor(f + 1)})
 	}
 	// make sure something composite is reachable
 	in := named(objs[0])
@@ -209,7 +219,7 @@ func genSchema(r *rand.Rand) *gSchema {
 	if chance(r, 0.3) {
 		m := &gType{id: 2, kind: "obj"}
 		for _, f := range r.Perm(8)[:2] {
-			m.fields = append(m.fields, gField{name: f + 1, ty: genTy(), args: genArgs()})
+			m.fields = append(m.fields, gField{name: f + 1, ty: genTy(), args: genArgsFor(f + 1)})
 		}
 		s.add(m)
 	}
@@ -532,14 +542,32 @@ func (d *docGen) sels(container int, depth int) []sx.S {
 	t := d.s.byID[container]
 	var out []sx.S
 	n := 1 + r.Intn(4)
+	used := map[int]bool{}
+	allowDup := chance(r, 0.12)
+	freshAlias := func() (sx.S, bool) {
+		for try := 0; try < 8; try++ {
+			a := 1 + r.Intn(12)
+			if allowDup || !used[a] {
+				used[a] = true
+				return sx.A(a), true
+			}
+		}
+		return "-", false
+	}
 	for i := 0; i < n; i++ {
 		x := r.Float64()
 		switch {
 		case x < 0.12:
 			alias := sx.S("-")
-			if chance(r, d.p.pAlias) {
-				alias = sx.A(1 + r.Intn(8))
-				d.feats["alias"] = true
+			if chance(r, d.p.pAlias) || used[0] {
+				if a, ok := freshAlias(); ok {
+					alias = a
+					d.feats["alias"] = true
+				} else if !allowDup {
+					continue
+				}
+			} else {
+				used[0] = true
 			}
 			out = append(out, sx.L("f", d.id(), alias, "0", sx.L("args"), d.dirs()))
 			d.feats["typename"] = true
@@ -586,14 +614,24 @@ func (d *docGen) sels(container int, depth int) []sx.S {
 			out = append(out, sx.L("fr", id, sx.A(name), dirs))
 		default:
 			if t.kind == "union" || len(t.fields) == 0 {
+				if used[0] && !allowDup {
+					continue
+				}
+				used[0] = true
 				out = append(out, sx.L("f", d.id(), "-", "0", sx.L("args"), sx.L("dirs")))
 				continue
 			}
 			f := t.fields[r.Intn(len(t.fields))]
 			alias := sx.S("-")
-			if chance(r, d.p.pAlias) {
-				alias = sx.A(1 + r.Intn(8))
-				d.feats["alias"] = true
+			if chance(r, d.p.pAlias) || used[f.name] {
+				if a, ok := freshAlias(); ok {
+					alias = a
+					d.feats["alias"] = true
+				} else if !allowDup {
+					continue
+				}
+			} else {
+				used[f.name] = true
 			}
 			args := []sx.S{"args"}
 			for _, a := range f.args {
@@ -632,6 +670,9 @@ func (d *docGen) sels(container int, depth int) []sx.S {
 			}
 			out = append(out, fs)
 		}
+	}
+	if len(out) == 0 {
+		out = append(out, sx.L("f", d.id(), "-", "0", sx.L("args"), sx.L("dirs")))
 	}
 	return out
 }
@@ -863,7 +904,96 @@ func execGen(prof profile, quick, thorough int) func(r *rand.Rand, tier string) 
 	}
 }
 
+var profC06 = profile{pFail: 0.22, pIll: 0.1, pDir: 0.1, pAlias: 0.3, pFrag: 0.12, pInline: 0.12, pArgs: 0.8, pAny: 0.5, pBadCall: 0.05, pNullObj: 0.05, maxDepth: 4, calls: 1}
+var profC08 = profile{pFail: 0.03, pIll: 0.01, pDir: 0.1, pAlias: 0.25, pFrag: 0.15, pInline: 0.3, pArgs: 0.8, pAny: 0.4, pBadCall: 0.0, pNullObj: 0.05, maxDepth: 4, calls: 1}
+var profC09 = profile{pFail: 0.03, pIll: 0.01, pDir: 0.6, pAlias: 0.25, pFrag: 0.12, pInline: 0.15, pArgs: 0.8, pAny: 0.3, pBadCall: 0.0, pNullObj: 0.05, maxDepth: 4, calls: 1}
+var profC11 = profile{pFail: 0.05, pIll: 0.02, pDir: 0.3, pAlias: 0.3, pFrag: 0.1, pInline: 0.12, pArgs: 0.9, pAny: 0.4, pBadCall: 0.1, pNullObj: 0.1, maxDepth: 4, calls: 8}
+
 func init() {
 	props["C01"] = &Prop{Gen: execGen(profC01, 3000, 50000), Exec: execExec, Valid: execValid}
+	props["C06"] = &Prop{Gen: execGen(profC06, 3000, 50000), Exec: execExec, Valid: execValid}
+	props["C08"] = &Prop{Gen: execGen(profC08, 3000, 50000), Exec: execExec, Valid: execValid}
+	props["C09"] = &Prop{Gen: c09Gen, Exec: execExec, Valid: execValid}
+	props["C11"] = &Prop{Gen: execGen(profC11, 1500, 20000), Exec: execExec, Valid: execValid}
 	_ = fmt.Sprint
+}
+
+// c09Gen: the full combination table of the property's quantifier, embedded at three depths on each of
+// the three selection kinds, followed by random documents dense in directives.
+func c09Gen(r *rand.Rand, tier string) []Case {
+	var cases []Case
+	conds := []string{"-", "(b 1)", "(b 0)", "(v 1)", "(v 2)", "(v 3)", "(v 4)"}
+	schema := `(schema (leaf 10 int) (leaf 11 string) (leaf 12 bool) (leaf 13 id) (leaf 14 float) ` +
+		`(obj 20 (fields (f 1 (n 20) (args)) (f 2 (n 10) (args))) (ifaces)) ` +
+		`(obj 1 (fields (f 1 (n 20) (args)) (f 2 (n 10) (args))) (ifaces)))`
+	graph := `(graph (node 1 1 (field 1 (const (node 2))) (field 2 (const (int 1)))) ` +
+		`(node 2 20 (field 1 (const (node 2))) (field 2 (const (int 2)))))`
+	n := 0
+	for _, sk := range conds {
+		for _, inc := range conds {
+			for order := 0; order < 2; order++ {
+				for kind := 0; kind < 3; kind++ {
+					for depth := 1; depth <= 3; depth++ {
+						ds := ""
+						if sk != "-" {
+							ds = "(d skip " + sk + ")"
+						}
+						di := ""
+						if inc != "-" {
+							di = "(d include " + inc + ")"
+						}
+						dirs := "(dirs " + ds + " " + di + ")"
+						if order == 1 {
+							dirs = "(dirs " + di + " " + ds + ")"
+						}
+						var sel string
+						frags := "(frags)"
+						ct := 20
+						if depth == 1 {
+							ct = 1
+						}
+						switch kind {
+						case 0:
+							sel = "(f 50 5 2 (args) " + dirs + ")"
+						case 1:
+							sel = "(in 50 - " + dirs + " (f 51 5 2 (args) (dirs)))"
+						default:
+							sel = "(fr 50 1 " + dirs + ")"
+							frags = fmt.Sprintf("(frags (frag 1 %d (f 51 5 2 (args) (dirs))))", ct)
+						}
+						body := sel + " (f 60 - 2 (args) (dirs))"
+						for dd := depth; dd > 1; dd-- {
+							body = fmt.Sprintf("(f %d - 1 (args) (dirs) %s)", 70+dd, body)
+						}
+						doc := "(doc (ops (op query 1 (vars (v 1 (n 12) -) (v 2 (n 12) -) (v 3 (n 12) (b 1)) (v 4 (n 12) (b 0))) " + body + ")) " + frags + ")"
+						in := "(exec " + schema + " (strat (20 R) (1 R)) " + graph + " (root 1 -1) (any 0) " + doc +
+							" (calls (call 1 (vars (1 (b 1)) (2 (b 0))))))"
+						v, err := sx.Parse(in)
+						if err != nil {
+							panic(err)
+						}
+						n++
+						tags := []string{"table", "directive", "nontrivial"}
+						if sk != "-" && inc != "-" {
+							tags = append(tags, "two-directives")
+						}
+						text, _ := docText(section(sx.List(v)[1:], "doc"))
+						cases = append(cases, Case{ID: fmt.Sprintf("t%d", n), Input: v, Tags: tags, Human: text})
+					}
+				}
+			}
+		}
+	}
+	nrand := 1500
+	if tier == "thorough" {
+		nrand = 30000
+	}
+	for i := 0; i < nrand; i++ {
+		p := profC09
+		if i%2 == 1 {
+			p.calls = 4 // the same parsed document resolved again with other variable values
+		}
+		cases = append(cases, genExecCase(r, &p, "g"+strconv.Itoa(i)))
+	}
+	return cases
 }
